@@ -7,6 +7,9 @@ Families
           nullable / unique flags and a requested size
   frame   DataFrameSchema (1-3 columns, regex columns, Index / MultiIndex schema, joint ``unique``,
           dataframe-level checks) and stand-alone MultiIndex
+  fresh   a fixed list of Index / MultiIndex / Series / Column / DataFrame schemas, each evaluated in a newly
+          started interpreter where the draw is the very first use of pandera (state a user's script starts in);
+          the same case is re-evaluated afterwards in that process as the control
 
 Oracle: k draws are taken from ``S.strategy(size=n)`` with a seed that is part of the case; every returned draw
 must be of the documented container type and must pass ``S.validate`` (lazy, so every failing constraint is
@@ -33,7 +36,8 @@ RULE = (
     "validates each. Non-trivial: at least one draw was returned (or the strategy crashed on a satisfiable schema) "
     "AND (a chain of >=2 checks on one field, or a nullable/unique flag together with an index schema or >=2 "
     "fields, or an optional check argument left None). A share of cases ('clean') avoids every feature of a "
-    "recorded known finding so the search continues behind them. Distinct = hash of the canonical JSON case."
+    "recorded known finding so the search continues behind them. Family 'fresh' enumerates 9 fixed schemas x "
+    "seed-dependent sizes in fresh interpreters. Distinct = hash of the canonical JSON case."
 )
 ASSUMPTIONS = [
     "pandera's validate() is the acceptance oracle for a draw (the property is stated relative to it)",
@@ -486,7 +490,8 @@ def _failures(exc):
         if type(getattr(se, "schema", None)).__name__ == "MultiIndex":
             m = sp.re.search(r"(?:series|Index|Column) '([^']*)'", str(se))
             fname = m.group(1) if m else fname
-        out.append({"reason": rc, "check": cname, "field": fname,
+        m = sp.re.match(r"(?:Column|Index|SeriesSchema|series|expected series) '([^']*)'", str(se))
+        out.append({"reason": rc, "check": cname, "field": fname, "label": m.group(1) if m else fname,
                     "schema": type(getattr(se, "schema", None)).__name__,
                     "cases": cases, "null_only": null_only, "msg": str(se)[:160]})
     return out
@@ -840,7 +845,15 @@ def _k_null_dtype(family, case, disc):
     def fn(role, f, segs, fl):
         return f.get("nullable") and not sp.holds_null(f["dtype"])
 
-    return _all_fails(case, disc, "draw-rejected:WRONG_DATATYPE", fn)
+    if _all_fails(case, disc, "draw-rejected:WRONG_DATATYPE", fn):
+        return True
+
+    # the same NaN mask turns int64 into float64: distinct ints beyond 2**53 collapse into one float -> duplicates
+    def fn2(role, f, segs, fl):
+        return (fn(role, f, segs, fl) and sp.cls_of(f["dtype"]) == "int" and f.get("unique") and fl["cases"]
+                and all(isinstance(v, float) and abs(v) >= 2.0 ** 53 for v in fl["cases"]))
+
+    return _all_fails(case, disc, "draw-rejected:SERIES_CONTAINS_DUPLICATES", fn2)
 
 
 def _numeric_cells(snap, name=None):
@@ -894,7 +907,7 @@ def _k_in_range(family, case, disc):
         for seg in segs:
             if seg and seg[0][1]["c"] == "in_range":
                 tag, c = seg[0]
-                values = fl["cases"] or _numeric_cells(snap, f.get("name") if role == "column" else None)
+                values = fl["cases"] or _numeric_cells(snap, fl.get("label") if role == "column" else None)
                 if values and _only_excluded_bounds_violate(values, tag, c):
                     return True
         return False
